@@ -71,7 +71,8 @@ ghost("chain", ["t", "j"], "ite(j == -1, t, some(anc(t, j)))")
 ghost("chain_in", ["t", "j"], "j == -1 or (j >= 0 and anc(t, j) is not None)")
 ghost("TLim", ["n", "sc"], "attr(n, 'limits', sc)")
 ghost("TLimOn", ["n", "sc"], "TLim(n, sc) is not None and len(some(TLim(n, sc))._limits) > 0")
-ghost("ChainLimWf", ["t", "sc"], "forall(j, implies(chain_in(t, j) and TLim(chain(t, j), sc) is not None, LimitsWf(some(TLim(chain(t, j), sc)))))")
+ghost("ChainLimWf", ["t", "sc"], "forall(j, implies(chain_in(t, j) and TLim(chain(t, j), sc) is not None, LimitsWf(some(TLim(chain(t, j), sc)))))",
+      opaque=Bool, types=[Ref("Task"), Int])
 
 contract(
     TS + "::TaskScenario.getAllLimits", props=["C05"],
@@ -101,7 +102,7 @@ _gal_post_as_pre = [
 ]
 
 contract(
-    TS + "::TaskScenario.limitsOk", props=["C05"],
+    TS + "::TaskScenario.limitsOk", props=["C05"], reveal=["ChainLimWf"],
     params={"self": Ref("TaskScenario"), "sbIdx": Int, "resource": Opt(Ref("Resource"))}, ret=Bool,
     defaults={"resource": None},
     requires=[("wf", "ChainLimWf(self.property, self.scenarioIdx)")],
@@ -118,7 +119,7 @@ contract(
 )
 
 contract(
-    TS + "::TaskScenario.incLimits", variant="counting", props=["C05"],
+    TS + "::TaskScenario.incLimits", variant="counting", props=["C05"], reveal=["ChainLimWf"],
     params={"self": Ref("TaskScenario"), "sbIdx": Int, "resource": Opt(Ref("Resource"))},
     defaults={"resource": None},
     requires=[("wf", "ChainLimWf(self.property, self.scenarioIdx)")],
@@ -198,18 +199,19 @@ ghost("ResOk", ["r", "ts"],
       "r.data is not None and 0 <= ts.scenarioIdx and ts.scenarioIdx < len(some(r.data)) and some(r.data)[ts.scenarioIdx] is not None and "
       "RSof(r, ts.scenarioIdx).scoreboard is not None and RSof(r, ts.scenarioIdx).project == ts.project and "
       "RSof(r, ts.scenarioIdx).property == r and RSof(r, ts.scenarioIdx).scenarioIdx == ts.scenarioIdx and "
-      "some(ts.currentSlotIdx) < len(some(RSof(r, ts.scenarioIdx).scoreboard).sb) and "
+      "Upper(ts.project) < len(some(RSof(r, ts.scenarioIdx).scoreboard).sb) and "
       "Ledger(RSof(r, ts.scenarioIdx)) and ListsDistinct(RSof(r, ts.scenarioIdx)) and EntriesFit(RSof(r, ts.scenarioIdx)) and "
       "NodeLimWf(r, ts.scenarioIdx) and AncLimWf(r, ts.scenarioIdx) and "
       "(attr(r, 'efficiency', ts.scenarioIdx) is None or some(attr(r, 'efficiency', ts.scenarioIdx)) >= 0)")
 ghost("World", ["ts"],
-      "forall(r, 'Ref:Resource', ResOk(r, ts)) and "
+      "forall(r, 'Ref:Resource', ResOk(r, ts) and implies(ts.project.scoreboard is not None, "
+      "some(RSof(r, ts.scenarioIdx).scoreboard).sb != some(ts.project.scoreboard).sb)) and "
       "forall(a, 'Ref:Resource', forall(b, 'Ref:Resource', implies(a != b, RSof(a, ts.scenarioIdx) != RSof(b, ts.scenarioIdx) and "
-      "RSsep(RSof(a, ts.scenarioIdx), RSof(b, ts.scenarioIdx)))))")
+      "RSsep(RSof(a, ts.scenarioIdx), RSof(b, ts.scenarioIdx)))))", opaque=Bool, types=[Ref("TaskScenario")])
 ghost("TaskOk", ["ts"],
-      "ts.currentSlotIdx is not None and 0 <= some(ts.currentSlotIdx) and "
-      "implies(ts.project.scoreboard is not None, some(ts.currentSlotIdx) < len(some(ts.project.scoreboard).sb)) and "
-      "PG(ts.project) >= 1 and ts.project.attributes['start'] is not None and "
+      "ts.currentSlotIdx is not None and 0 <= some(ts.currentSlotIdx) and some(ts.currentSlotIdx) <= Upper(ts.project) and "
+      "implies(ts.project.scoreboard is not None, Upper(ts.project) < len(some(ts.project.scoreboard).sb)) and "
+      "PG(ts.project) >= 1 and ts.project.attributes['start'] is not None and ts.project.attributes['end'] is not None and "
       "0 <= ts.slotStartOffset and ts.slotStartOffset < PG(ts.project) and ChainLimWf(ts.property, ts.scenarioIdx) and "
       "ts.property.data is not None and ts.scenarioIdx < len(some(ts.property.data))")
 
@@ -249,7 +251,7 @@ ghost("JustBooked", ["ts"],
       "len(MyList(ts)) >= 1 and MyList(ts)[len(MyList(ts)) - 1][0] == ts.property and MyEntry(ts) > 0")
 
 contract(
-    TS + "::TaskScenario.bookResources", props=["C01", "C03", "C04", "C06"],
+    TS + "::TaskScenario.bookResources", props=["C01", "C03", "C04", "C06"], reveal=["World"],
     params={"self": Ref("TaskScenario")},
     requires=[("task", "TaskOk(self)"), ("world", "World(self)"),
               ("forward", "attr(self.property, 'forward', self.scenarioIdx) is not None"),
@@ -277,6 +279,7 @@ contract(
         # C01: when effort was credited, the last booked resource's slot is full and the task's entry sits last
         ("just-booked", "implies(self.doneEffort > old(self.doneEffort), JustBooked(self))"),
         # C03: the choice between primary and alternative resources is made once
+        ("pboard-kept", "PBoardSame(self.project) and self.project.scoreboard == old(self.project.scoreboard)"),
         ("selected-once", "implies(old(self._selectedResources) is not None, self._selectedResources == old(self._selectedResources))"),
         ("selected-distinct", "implies(self._selectedResources is not None, forall(a, 0, len(some(self._selectedResources)), "
                               "forall(b, 0, len(some(self._selectedResources)), implies(a != b, "
@@ -308,6 +311,7 @@ contract(
                            "TEnd(self.property, self.scenarioIdx) == old(TEnd(self.property, self.scenarioIdx)) and "
                            "attr(self.property, 'scheduled', self.scenarioIdx) == old(attr(self.property, 'scheduled', self.scenarioIdx))"),
             ("gain", "total_effort_this_slot >= 0 and iff(booked_any, total_effort_this_slot > 0)"),
+            ("pboard-kept", "PBoardSame(self.project)"),
             ("just-booked", "implies(booked_any, JustBooked(self))"),
             ("distinct", "forall(a, 0, len(resources_to_book), forall(b, 0, len(resources_to_book), implies(a != b, "
                          "resources_to_book[a] != resources_to_book[b])))"),
@@ -349,7 +353,7 @@ contract(
 
 # effort tasks only (the scheduler's main case); milestones are covered by the milestone clause
 contract(
-    TS + "::TaskScenario.scheduleSlot", props=["C01", "C03", "C04", "C06"],
+    TS + "::TaskScenario.scheduleSlot", props=["C01", "C03", "C04", "C06"], reveal=["World"],
     params={"self": Ref("TaskScenario")}, ret=Bool,
     requires=[("task", "TaskOk(self)"), ("world", "World(self)"),
               ("forward", "attr(self.property, 'forward', self.scenarioIdx) is not None"),
@@ -385,6 +389,7 @@ contract(
                       "not result and TStart(self.property, self.scenarioIdx) is not None and "
                       "TStart(self.property, self.scenarioIdx) == TEnd(self.property, self.scenarioIdx) and "
                       "secs(some(TStart(self.property, self.scenarioIdx))) == secs(PT(self.project, some(self.currentSlotIdx))) + self.slotStartOffset)"),
+        ("pboard-kept", "PBoardSame(self.project) and self.project.scoreboard == old(self.project.scoreboard)"),
         ("selected-once", "implies(old(self._selectedResources) is not None, self._selectedResources == old(self._selectedResources))"),
         _ss_sel_distinct,
         ("scheduled-kept", "attr(self.property, 'scheduled', self.scenarioIdx) == old(attr(self.property, 'scheduled', self.scenarioIdx))"),
